@@ -246,7 +246,7 @@ fn truncate_static() {
     truncate_contract(any_static(MAX_CAP));
 }
 
-// @harness name=truncate_inline hist=yes props=C01,C07,C09 class=U tier=quick
+// @harness name=truncate_inline nodebug=quick hist=yes props=C01,C07,C09 class=U tier=quick
 #[kani::proof]
 #[kani::stub(alloc::alloc::alloc, v_alloc)]
 #[kani::stub(alloc::alloc::dealloc, v_dealloc)]
@@ -1056,7 +1056,7 @@ fn trap_replace_inner(_r: &mut Repr, _o: Repr) {
     obl!(false, "bad_index.replace_inner_reached_before_index_check", "C07");
 }
 
-// @harness name=remove_bad_index props=C07,C01 class=U tier=quick big=yes fn=Repr::remove expect_fail="in function repr::Repr::remove$"
+// @harness name=remove_bad_index nodebug=quick props=C07,C01 class=U tier=quick big=yes fn=Repr::remove expect_fail="in function repr::Repr::remove$"
 #[kani::proof]
 #[kani::stub(alloc::alloc::alloc, v_alloc)]
 #[kani::stub(alloc::alloc::dealloc, v_dealloc)]
@@ -1074,7 +1074,7 @@ fn remove_bad_index() {
     obl!(false, "remove.panics_on_bad_index", "C07,C01");
 }
 
-// @harness name=insert_str_bad_index props=C07,C01 class=U tier=quick big=yes fn=Repr::insert_str expect_fail="in function repr::Repr::insert_str$"
+// @harness name=insert_str_bad_index nodebug=quick props=C07,C01 class=U tier=quick big=yes fn=Repr::insert_str expect_fail="in function repr::Repr::insert_str$"
 #[kani::proof]
 #[kani::stub(alloc::alloc::alloc, v_alloc)]
 #[kani::stub(alloc::alloc::dealloc, v_dealloc)]
@@ -1093,7 +1093,7 @@ fn insert_str_bad_index() {
     obl!(false, "insert_str.panics_on_bad_index", "C07,C01");
 }
 
-// @harness name=truncate_bad_index props=C07,C01 class=U tier=quick big=yes fn=Repr::truncate expect_fail="in function repr::Repr::truncate$"
+// @harness name=truncate_bad_index nodebug=quick props=C07,C01 class=U tier=quick big=yes fn=Repr::truncate expect_fail="in function repr::Repr::truncate$"
 #[kani::proof]
 #[kani::stub(alloc::alloc::alloc, v_alloc)]
 #[kani::stub(alloc::alloc::dealloc, v_dealloc)]
